@@ -471,6 +471,9 @@ def oracle_core(ck: Check, camp, d, hint_of, trig: list[str], dens: dict | None,
             cls["trigger"] = "union_of_only_none"
         elif mech in ("double_optional", "none_twice") and "optional_inside_union_or_optional" in trig:
             cls["trigger"] = "optional_inside_union_or_optional"
+        elif level == "field" and mech in ("double_optional", "none_twice") and d["ty"] == "Any" and (d["list"] or d["set"] or d["dict"]):
+            # the field-level exemption `data_type.type != ANY` looks at the raw type of a List[Any] / Dict[str, Any]
+            cls["trigger"] = "optional_any_container_field"
         elif "literal_special" in trig and (lit := literal_trigger(cls)) is not None:
             cls["trigger"] = lit
         elif mech in ("spelling_differs", "denotation_differs") and "optional_member_of_container_union" in trig:
@@ -1081,7 +1084,10 @@ def known_findings(ck: Check) -> None:
         probe.findings = []
         camp = probe.campaign("witness")
         d = f["witness"]["tree"]
-        oracle_tree(probe, camp, d, dens=model_dens(ck, d))
+        if f["witness"].get("field") is not None:
+            oracle_field(probe, camp, d, f["witness"]["field"])
+        else:
+            oracle_tree(probe, camp, d, dens=model_dens(ck, d))
         if probe.failures:
             ck.known(f["id"], f["what"])
 
